@@ -122,6 +122,10 @@ impl<'a, H: HashChain> InMemoryLmsPublicKey<'a, H> {
         // Parsing like desribed in 5.4.2
         let mut data_index = 0;
 
+        if data.len() < lms_public_key_length(H::OUTPUT_SIZE as usize) {
+            return None;
+        }
+
         let lms_parameter = LmsAlgorithm::get_from_type(u32::from_be_bytes(
             read_and_advance(data, 4, &mut data_index)
                 .try_into()
